@@ -194,6 +194,7 @@ let () =
         let e = mk_env mk cr (z_of_int wlim) true true in
         let race = ref None in
         let servers = ref [] and scripts = ref [] in
+        let infos = ref [] in
         let fuzzy = ref false in
         let chk b = if int_of_z (line_class b) = 2 then fuzzy := true in
         List.iter (function Some b -> chk b | None -> ()) locals;
@@ -222,6 +223,7 @@ let () =
           let chunks = split_at delivered (List.sort compare offs) 0 in
           let url = bytes_of_string (Printf.sprintf "http://127.0.0.1:PORT%d/%s" i target) in
           servers := !servers @ [{ s_id = z_of_int i; s_url = url; s_env = e }];
+          infos := !infos @ [(status, no_head, delivered, List.map List.length chunks, ending, url)];
           scripts := !scripts @ [script_events (z_of_int status) no_head chunks (z_of_int ending)]
         done;
         let pre_kind, pre_c =
@@ -259,7 +261,25 @@ let () =
             int_of_z c1 = int_of_z c2 && string_of_z a1 = string_of_z a2 && string_of_z b1 = string_of_z b2 && su u1 = su u2
             && sc (sh_cache !sh) = sc (o_cache s1) && int_of_z (sh_ntmp !sh (z_of_int 1)) = List.length (o_tmp s1)
           end in
+        (* cross-check with the streaming fetch (C16/Stream.v lookup_stream: for every server in turn create_cache_file,
+           parse_async's loop over the scripted body with the tee callback, commit_cache_file): without local paths, a racing
+           writer or an entry that is already there, the lookup IS that network part; its result, URL, request log, cache
+           entry, tmp directory and leaf directory must be what C16/Model.v predicts (and hence what the real code does) *)
+        let stream_agree =
+          if locals <> [] || !race <> None || pre_kind = 1 then true else begin
+            let ss = List.map2 (fun srv (status, no_head, delivered, sizes, ending, _) ->
+                (srv, resp_of (z_of_int status) no_head delivered (List.map z_of_int sizes) (ending <> 0))) !servers !infos in
+            let ((((kind, (a, b)), u), f'), lg) = stream_lookup f0 ss in
+            let ((c2, (a2, b2)), u2) = o_result s1 in
+            let sc = function Some (File b) -> "F" ^ hex_of b | Some Dir -> "D" | None -> "-" in
+            let su = function Some u -> hex_of u | None -> "N" in
+            int_of_z kind = int_of_z c2 && string_of_z a = string_of_z a2 && string_of_z b = string_of_z b2 && su u = su u2
+            && sc (fs_cache f') = sc (o_cache s1) && List.length (fs_tmp f') = List.length (o_tmp s1)
+            && fs_cdir f' = o_cdir s1
+            && List.map string_of_z lg = List.map string_of_z (o_log s1)
+          end in
         if not agree then print_endline "MODELS-DISAGREE (C16/Model.v vs C16/Shared.v on a single-client case)" else
+        if not stream_agree then print_endline "MODELS-DISAGREE (C16/Model.v vs the streaming fetch of C16/Stream.v)" else
         let out = Buffer.create 256 in
         Buffer.add_string out (Printf.sprintf "A{%s}B{%s}" (block s1 true true) (block s2 true true));
         if drop <> "-" then begin
